@@ -761,6 +761,27 @@ pub fn run_baton(trace: &BatonTrace, prop: &str, cold_process: bool) -> BatonOut
         counters.inc("reach.shared_instance_reloaded_from_storage");
         Arc::new(Shared { rln: second, msgs, depth })
     } else {
+        // the sequential reference comes from a second, identically built instance (never from the shared one, whose state
+        // a race may have damaged for good)
+        let mut twin = match guarded(|| RLN::new(depth, Cursor::new("{}".to_string()))) {
+            Ok(Ok(r)) => r,
+            other => {
+                o.harness_error = Some(format!("RLN::new (reference instance): {:?}", other.map(|x| x.map(|_| ()).map_err(|e| e.to_string()))));
+                o.counters = counters;
+                return o;
+            }
+        };
+        for (i, v) in &trace.leaves {
+            let _ = twin.set_leaf(*i, Cursor::new(fr_to_le32(v).to_vec()));
+        }
+        let _ = twin.set_metadata(b"e5-shared");
+        for (secret, limit, index, _, _, _) in &trace.publishes {
+            let _ = twin.set_leaf(*index, Cursor::new(fr_to_le32(&rate_commitment(secret, limit)).to_vec()));
+        }
+        let reference = Shared { rln: twin, msgs: msgs.clone(), depth };
+        for script in &trace.shared {
+            want_pre.push(script.iter().map(|c| do_call(c, Some(&reference))).collect());
+        }
         Arc::new(Shared { rln, msgs, depth })
     };
     // ---- phase 2: shared instance
@@ -781,7 +802,7 @@ pub fn run_baton(trace: &BatonTrace, prop: &str, cold_process: bool) -> BatonOut
     for (t, script) in trace.shared.iter().enumerate() {
         for (k, c) in script.iter().enumerate() {
             let after = do_call(c, Some(&sh));
-            let want = if trace.reload { want_pre[t][k].clone() } else { after.clone() };
+            let want = want_pre[t][k].clone();
             let got = p2.results.get(t).and_then(|r| r.get(k)).cloned().unwrap_or(RResult::None);
             counters.inc("oracle_evaluations");
             counters.inc(&format!("call.{}", c.to_json()["c"].as_str().unwrap_or("?")));
